@@ -482,6 +482,7 @@ func checkC06Conc(c C06Conc, o *vcore.Obs) error {
 			// transaction and must be its complete image, new DBI included.
 			started, release, done := make(chan struct{}), make(chan struct{}), make(chan error, 1)
 			fresh := fmt.Sprintf("fresh%d", r)
+			var wroteAt atomic.Int64
 			go func() {
 				done <- env.Update(func(txn *lmdb.Txn) error {
 					close(started)
@@ -497,6 +498,7 @@ func checkC06Conc(c C06Conc, o *vcore.Obs) error {
 							return err
 						}
 					}
+					wroteAt.Store(time.Now().UnixNano()) // still inside the transaction: it commits later
 					return nil
 				})
 			}()
@@ -522,6 +524,14 @@ func checkC06Conc(c C06Conc, o *vcore.Obs) error {
 				if d.Name == fresh {
 					found = len(d.Entries) == 1
 				}
+			}
+			// ... and it names the time the image was taken: the image contains that transaction, so it was
+			// taken after the application wrote (file name and meta data alike)
+			if int64(flat.Meta.TimestampNano) < wroteAt.Load() {
+				return fmt.Errorf("snapshot %s claims to have been taken %v BEFORE the application wrote the transaction it contains (the time must be read once the dump transaction is open)", names[len(names)-1], time.Duration(wroteAt.Load()-int64(flat.Meta.TimestampNano)))
+			}
+			if ni, err := snapshot.ParseName(names[len(names)-1]); err == nil && ni.Timestamp.UnixNano() < wroteAt.Load() {
+				return fmt.Errorf("snapshot name %s carries a time before the application wrote the transaction it contains", names[len(names)-1])
 			}
 			if !found {
 				var have []string
@@ -554,10 +564,17 @@ func checkC06Conc(c C06Conc, o *vcore.Obs) error {
 			return fmt.Errorf("snapshot mixes two transactions: left holds id %d, right holds id %d (meta txn %d)", ids["left"], ids["right"], flat.Meta.LmdbTxnID)
 		}
 		if c.Native {
-			// consistent cut at exactly the recorded transaction: every writer transaction writes "id"
-			if ids["left"] != uint64(flat.Meta.LmdbTxnID) {
-				return fmt.Errorf("snapshot content is from transaction %d but its metadata records transaction %d", ids["left"], flat.Meta.LmdbTxnID)
+			// The image is the one of transaction ids["left"]. The transaction id recorded in the meta data is
+			// what mdb_txn_id() reports for the dump's read transaction; LMDB may report an OLDER id than the
+			// snapshot the reader actually got (the reader picks the meta page by the parity of the id it
+			// registered and copies it afterwards: when two or more commits land in between, it reads a newer
+			// meta page of the same parity - observed as an even difference, roughly once in 10^5 read
+			// transactions next to a busy writer). The image is still one transaction (checked above); the
+			// property says nothing about that number, so only "not newer than the image" is demanded.
+			if ids["left"] < uint64(flat.Meta.LmdbTxnID) {
+				return fmt.Errorf("snapshot content is from transaction %d but its metadata records the later transaction %d", ids["left"], flat.Meta.LmdbTxnID)
 			}
+			o.ClassIf(ids["left"] != uint64(flat.Meta.LmdbTxnID), "lmdb-read-txn-id-older-than-its-snapshot")
 		} else if ids["left"] > uint64(flat.Meta.LmdbTxnID) {
 			return fmt.Errorf("snapshot content from transaction %d is newer than the recorded transaction %d", ids["left"], flat.Meta.LmdbTxnID)
 		}
@@ -574,7 +591,7 @@ func checkC06Conc(c C06Conc, o *vcore.Obs) error {
 
 func TestC06Concurrent(t *testing.T) {
 	vcore.Run(t, vcore.Config{Property: "C06",
-		Rule: "a writer commits transactions that put their own transaction id under the same key into two DBIs; native: commits are performed from Hooks.BeforeRead, i.e. while the dump's read transaction is open (plus a free-running writer in the thorough tier); shadow: free-running writer; the snapshot shows the same id in both DBIs, equal to the transaction id recorded in its metadata (native); non-trivial = >=1 commit inside the dump transaction / free-running writer"},
+		Rule: "a writer commits transactions that put their own transaction id under the same key into two DBIs; native: commits are performed from Hooks.BeforeRead, i.e. while the dump's read transaction is open (plus a free-running writer in the thorough tier); shadow: free-running writer; the snapshot shows the same id in both DBIs (one transaction), not older than the transaction id recorded in its metadata (native) / not newer (shadow); non-trivial = >=1 commit inside the dump transaction / free-running writer"},
 		func(t *rapid.T) C06Conc {
 			return C06Conc{Native: rapid.Bool().Draw(t, "native"), NewDBI: rapid.IntRange(0, 2).Draw(t, "newdbi") == 0, Commits: rapid.IntRange(0, 4).Draw(t, "commits"), Rounds: rapid.IntRange(1, 3).Draw(t, "rounds")}
 		}, checkC06Conc)
